@@ -122,7 +122,7 @@ func (e *Exec) pcSat(extra *Term) bool {
 	if v, ok := e.known(extra); ok {
 		return v
 	}
-	roots := append(append([]*Term{}, e.pc...), extra)
+	roots := append(e.slicePC(extra), extra)
 	r, _ := e.solver.Check(roots, nil)
 	e.st.Queries++
 	switch r {
@@ -137,6 +137,44 @@ func (e *Exec) pcSat(extra *Term) bool {
 	// unknown: keep the side (sound for exploration), remember it
 	e.st.Unknown++
 	return true
+}
+
+// slice returns the conjuncts of the path condition that share variables (transitively) with q.
+// The rest of the path condition is satisfiable on its own (the path is feasible) and independent of q.
+func (e *Exec) slicePC(q *Term) []*Term {
+	seed := map[int]bool{}
+	for _, v := range e.tt.Vars(q) {
+		seed[v] = true
+	}
+	taken := make([]bool, len(e.pc))
+	var out []*Term
+	for changed := true; changed; {
+		changed = false
+		for i, c := range e.pc {
+			if taken[i] {
+				continue
+			}
+			vs := e.tt.Vars(c)
+			hit := false
+			for _, v := range vs {
+				if seed[v] {
+					hit = true
+					break
+				}
+			}
+			if hit {
+				taken[i] = true
+				out = append(out, c)
+				for _, v := range vs {
+					if !seed[v] {
+						seed[v] = true
+						changed = true
+					}
+				}
+			}
+		}
+	}
+	return out
 }
 
 // decide makes an n-way decision; constraint(i) gives the constraint of option i.
